@@ -191,6 +191,37 @@ pub fn index_neighbours() -> Vec<String> {
 fn neighbour_family(tier: Tier) -> Vec<Program> {
     use crate::blob::Algo;
     let mut out = Vec::new();
+    // keys of several KiB that share a long prefix and their length (whatever is derived from a
+    // key is derived from all of it): full removal of one leaves the other
+    {
+        let prefix = "p".repeat(1500);
+        let keys = vec![format!("{prefix}{}", "a".repeat(500)), format!("{prefix}{}", "b".repeat(500)), format!("{prefix}{}c", "a".repeat(499)), "short".to_string()];
+        let blobs = vec![crate::blob::Blob::new(6, 1), crate::blob::Blob::new(7, 2)];
+        for victim in 0..3usize {
+            for fl in [Fl::Sync, Fl::Async] {
+                for fully in [true, false] {
+                    let mut steps: Vec<Step> = (0..4).map(|i| Step { op: Op::Write(WriteSpec::simple(Some(i), i % 2)), fl: if i % 2 == 0 { Fl::Sync } else { Fl::Async } }).collect();
+                    steps.push(Step { op: Op::RemoveOpts { key: victim, fully }, fl });
+                    steps.push(Step { op: Op::Write(WriteSpec::simple(Some((victim + 1) % 3), 1)), fl });
+                    out.push(Program { keys: keys.clone(), blobs: blobs.clone(), steps });
+                }
+            }
+        }
+    }
+    // caches that only ever saw by-address writes (no index directory): clear empties them too;
+    // and the second clear of a history
+    for fl in [Fl::Sync, Fl::Async] {
+        let keys = vec!["k".to_string(), "other".to_string()];
+        let blobs = vec![crate::blob::Blob::new(6, 1), crate::blob::Blob::new(7, 2)];
+        let wh = |b: usize, fl: Fl| Step { op: Op::Write(WriteSpec::simple(None, b)), fl };
+        let a = |b: usize| AddrRef { algo: Algo::Sha256, blob: b };
+        out.push(Program { keys: keys.clone(), blobs: blobs.clone(), steps: vec![wh(0, fl), wh(1, Fl::Sync), Step { op: Op::Clear, fl }, Step { op: Op::Exists { addr: a(0) }, fl }, Step { op: Op::ReadHash { addr: a(1) }, fl }] });
+        out.push(Program {
+            keys: keys.clone(),
+            blobs: blobs.clone(),
+            steps: vec![Step { op: Op::Write(WriteSpec::simple(Some(0), 0)), fl }, Step { op: Op::Clear, fl }, wh(1, fl), Step { op: Op::Clear, fl: Fl::Sync }, Step { op: Op::ReadHash { addr: a(1) }, fl }, Step { op: Op::Clear, fl }, Step { op: Op::Clear, fl }],
+        });
+    }
     // index-directory neighbours: every removal kind applied to one of them
     {
         let keys = index_neighbours();
